@@ -3,7 +3,7 @@
    removed, escape-aware label walk) and dba5ede (the refresh parses downloads only). *)
 From Coq Require Import Permutation.
 From Sdns Require Import Common.Base Gen.C18 C18.Model C18.Spec
-  C18.Proofs_match C18.Proofs_disk C18.Proofs_reload C18.Proofs_final C18.Proofs_equiv C18.Proofs_refresh C18.Proofs_walk C18.Proofs_examples C18.Proofs_fault C18.Proofs_allsteps C18.Proofs_spelling.
+  C18.Proofs_match C18.Proofs_disk C18.Proofs_reload C18.Proofs_final C18.Proofs_equiv C18.Proofs_refresh C18.Proofs_walk C18.Proofs_examples C18.Proofs_fault C18.Proofs_allsteps C18.Proofs_spelling C18.Ack C18.Proofs_ack.
 Open Scope N_scope.
 
 (* Matching is exact on whole labels, case-insensitive, whitelist first: for every
@@ -297,6 +297,30 @@ Print Assumptions everything_heals.
 Theorem refresh_is_sets : forall dl s, asteps s (sys_refresh dl s).
 Proof. exact refresh_is_sets_lemma. Qed.
 Print Assumptions refresh_is_sets.
+
+(* "Listed" = acknowledged by the API.  Read a history of calls with the values they
+   returned as a list of entries (Ack.v: an accepted Set lists its key, Remove / RemoveBatch
+   un-list the keys they name, a SetBatch that counted every key lists them all, one that
+   counted only some lists an unknown part of them: none in [lo], all in [hi]).  After EVERY
+   sequence of Set / Remove / SetBatch / RemoveBatch calls on a list b0 whose plain entries do
+   not read "*.…" (every list the code builds), every name the lower acknowledged list blocks
+   is blocked by the memory, every name the memory blocks is blocked by the upper list, and
+   when no batch was accepted in part the two lists are ONE: a name is blocked exactly when
+   it or a parent is an entry some call has acknowledged and none has taken back, and it is
+   not whitelisted — also when the entry was added while a broader one covered it and the
+   broader one has been removed since (ack_example; seeded change C18-11).  [blocks b q] is
+   Spec.blocked_spec on the names of b's three lists.  Run.check_case evaluates the same
+   bracket on what the drivers observed of the real calls (Run.ack_bracket). *)
+Theorem acknowledged_is_matched : forall b0 ops, no_wild_plain b0 ->
+  let h := fst (run_hist ops b0) in
+  let b1 := snd (run_hist ops b0) in
+  let lo := fst (ack_lists h b0) in
+  let hi := snd (ack_lists h b0) in
+  (forall q, blocks lo q -> blocks b1 q) /\
+  (forall q, blocks b1 q -> blocks hi q) /\
+  (forallb all_or_nothing h = true -> lo = hi).
+Proof. exact acknowledged_is_matched_lemma. Qed.
+Print Assumptions acknowledged_is_matched.
 
 (* ABOUT THE PROPOSED CODE (props/C18/fix.patch, on offer for the finding
    blocklist-entry-spelling; NOT in /repo): with canonicalKey — as a function on names
